@@ -84,6 +84,8 @@ pub struct Interp<'a> {
     mirror: VecDeque<Ev>,
     pushed: Vec<VecDeque<MPacket>>,
     unnotified: Vec<bool>,
+    /// per connection: publisher topic aliases this client has established
+    pub_aliases: Vec<std::collections::HashMap<u16, String>>,
     slots: Vec<Slot>,
     pub flags: &'a Flags,
     pub specs: Vec<ClientSpec>,
@@ -107,6 +109,7 @@ impl<'a> Interp<'a> {
             mirror: VecDeque::new(),
             pushed: Vec::new(),
             unnotified: Vec::new(),
+            pub_aliases: Vec::new(),
             slots: vec![Slot::default(); h.clients.len()],
             flags,
             specs: h.clients.clone(),
@@ -343,12 +346,22 @@ impl<'a> Interp<'a> {
                 let payload = make_payload(serial_no, size);
                 let pkid = if *qos == 0 { 0 } else { self.next_pkid(*c) };
                 let props = if self.specs[*c].v5 { props.clone() } else { None };
-                let mut publish = make_publish(topic.as_bytes(), &payload, *qos, pkid, *retain, false);
-                let _ = &mut publish;
+                // publisher topic alias: the first use establishes it (topic + alias), a later use
+                // with the same topic sends the alias alone (empty topic)
+                let mut wire_topic: &[u8] = topic.as_bytes();
+                if let Some(a) = props.as_ref().and_then(|p| p.topic_alias) {
+                    let known = self.pub_aliases[s].get(&a).map(|t| t == topic).unwrap_or(false);
+                    if known {
+                        wire_topic = b"";
+                    } else {
+                        self.pub_aliases[s].insert(a, topic.clone());
+                    }
+                }
+                let publish = make_publish(wire_topic, &payload, *qos, pkid, *retain, false);
                 let p = Packet::Publish(publish, props.as_ref().map(to_props));
                 let m = MPacket::Publish {
                     serial: serial_no,
-                    topic: topic.clone().into_bytes(),
+                    topic: wire_topic.to_vec(),
                     payload,
                     qos: *qos,
                     pkid,
@@ -682,6 +695,7 @@ impl<'a> Interp<'a> {
         self.views.push(ClientView::default());
         self.pushed.push(VecDeque::new());
         self.unnotified.push(false);
+        self.pub_aliases.push(Default::default());
         if let Some(old) = self.slots[c].cur.take() {
             self.slots[c].ended.push(old);
         }
